@@ -352,6 +352,18 @@ def main(out_path: str):
         set_s("surveyHeaderColumns", question.MultipleChoiceQuestion.get_slot_names(), "MultipleChoiceQuestion.get_slot_names()"),
         set_s("choicesHeaderColumns", question.Option.get_slot_names(), "Option.get_slot_names()"),
     ]
+    # C10 / lexer: the two string-set literals of utils.default_is_dynamic (hyphen types, dynamic token names)
+    _sets = [
+        [e.value for e in n.elts]
+        for n in ast.walk(ast.parse(inspect.getsource(utils.default_is_dynamic)))
+        if isinstance(n, ast.Set) and all(isinstance(e, ast.Constant) and isinstance(e.value, str) for e in n.elts)
+    ]
+    _sets.sort(key=lambda x: "OPS_MATH" in x)
+    parts.append(list_s("defaultHyphenTypes", _sets[0] if len(_sets) == 2 else [], "utils.default_is_dynamic: element types whose literal '-' is not an operator"))
+    parts.append(list_s("defaultDynamicTokenNames", _sets[1] if len(_sets) == 2 else [], "utils.default_is_dynamic: lexer rule names that make a default dynamic"))
+    # C10 / F8: does Survey.xml reject a trigger that is not exactly one reference to a visible question? (fixes/F8.diff)
+    parts.append("/-- pyxform.survey defines TRIGGER_NOT_VISIBLE_QUESTION (the F8 repair is present) -/\ndef triggerMustBeVisibleQuestion : Bool := "
+                 + ("true" if hasattr(survey, "TRIGGER_NOT_VISIBLE_QUESTION") else "false"))
     parts.append("end Pyxv.Gen\n")
     # several slices may ask for the same table: keep the first definition of each name
     seen, uniq = set(), []
